@@ -1,6 +1,6 @@
 import Pendulum.Drv.Util
 import Pendulum.Model.Cal
-import Pendulum.Model.Rs
+import Pendulum.Gen.RsHelpers
 import Pendulum.Model.LocalTime
 import Pendulum.Gen.Helpers
 namespace Pendulum.Drv.C15
